@@ -1,2 +1,3 @@
 import Generated.Flags
 import Generated.Config
+import Generated.Wiring
